@@ -407,7 +407,8 @@ static void process_ldm_stm(
   uint32_t opcode,
   int index)
 {
-  const char *pru_str[] = { "db", "ib", "da", "ia" };
+  // Indexed by bits 24 (pre / post) and 23 (up / down).
+  const char *pru_str[] = { "da", "ia", "db", "ib" };
   int cond = (opcode >> 28) & 0xf;
   int w = (opcode >> 21) & 1;
   int s = (opcode >> 22) & 1;
